@@ -479,7 +479,7 @@ impl<S: Service + 'static, K: Kind> World<S, K> {
                 // SAFETY: the world is not touched by `exec_send` while the send runs
                 let w: &mut Self = unsafe { &mut *this.0 };
                 let s = w.subids.get(&rid).copied().unwrap_or(0);
-                let mut evs = vec![ev("bp", json!({"s": s, "k": retries, "bad": []}))];
+                let mut evs = vec![ev("bp", json!({"s": s, "ri": retries, "bad": []}))];
                 let entry = script.get(call_no).cloned().unwrap_or(Value::Null);
                 call_no += 1;
                 let mut act = entry["act"].as_str().map(|x| x.to_string());
